@@ -20,7 +20,8 @@ LEVEL = {"C15": "fault_enumeration"}
 RULE = {
     "C15": "scenario = one of four operation families (stage+transfer into a local store "
     "with hash-state; index save of nested directories; store-to-store transfer "
-    "local->local / local->SimRemoteFS / SimRemoteFS->local with verify; upload staging) "
+    "local->local / local->SimRemoteFS / SimRemoteFS->local with verify; closed two-directory "
+    "push with shared files and a remote index; upload staging) "
     "x reflink variant x tree; a golden run counts the seam points (fs mutations incl. "
     "mid-copy, state-database calls, remote puts); for every k the process is killed at "
     "point k, a fresh process audits (A1 no protected object mismatches its name, A2 no "
@@ -45,7 +46,8 @@ def generate(prop, rng):
     pool = gen.content_pool(rng, n=rng.randint(3, 6))
     fam = gen.weighted(
         rng,
-        [(4, "stage_transfer"), (3, "index_save"), (2, "xfer_ll"), (2, "xfer_lr"), (2, "xfer_rl"), (2, "upload")],
+        [(4, "stage_transfer"), (3, "index_save"), (2, "xfer_ll"), (2, "xfer_lr"), (2, "xfer_rl"), (2, "upload"),
+         (3, "xfer_multi")],
     )
     tree = gen.gen_tree(rng, range(len(pool)), max_files=rng.randint(2, 5), max_depth=2)
     if fam == "index_save" and not any("/" in r for r in tree):
@@ -62,11 +64,20 @@ def generate(prop, rng):
         "cache_types": rng.choice([None, ["copy"], ["hardlink", "copy"], ["reflink", "copy"]]),
         "two_caches": fam == "index_save" and rng.random() < 0.5,
     }
+    tree2 = None
+    if fam == "xfer_multi":
+        # a second directory sharing files with the first; closed request, remote index
+        tree2 = {"s_" + rel.replace("/", "_"): ci for rel, ci in list(tree.items())[: rng.randint(1, 2)]}
+        if rng.random() < 0.6:
+            tree2["own"] = rng.randrange(len(pool))
+        cfg["multi_dest"] = rng.choice(["local", "remote"])
+        cfg["use_index"] = rng.random() < 0.7
     sc = {
         "prop": prop,
         "cfg": cfg,
         "contents": [gen.enc(b) for b in pool],
         "tree": tree,
+        "tree2": tree2,
         "pre_objs": sorted(rng.sample(sorted(set(tree.values())), rng.randint(0, 1)))
         if cfg["pre"]
         else [],
@@ -87,11 +98,15 @@ def valid(sc):
         if not tops or tops[-1] in t:
             return False
     n = len(sc["contents"])
+    if sc["cfg"]["family"] == "xfer_multi":
+        t2 = sc.get("tree2")
+        if not t2 or any(ci >= n for ci in t2.values()):
+            return False
     return all(ci < n for ci in t.values()) and all(ci < n for ci in sc["pre_objs"])
 
 
 def shrink_paths(sc):
-    return [("dict", ("tree",)), ("list", ("pre_objs",))]
+    return [("dict", ("tree",)), ("dict", ("tree2",)), ("list", ("pre_objs",))]
 
 
 def simplify(sc):
@@ -158,7 +173,12 @@ class Env:
             sname = "rsrc" if skind == "remote" else "src"
             for oid, data in [(doid, dbytes)] + [(self.foid[ci], self.contents[ci]) for ci in set(self.sc["tree"].values())]:
                 w.raw_add(sname, skind, oid, data)
-            dest = ("rs", "remote") if fam == "xfer_lr" else ("cache", "local")
+            if fam == "xfer_multi":
+                ents2 = {rel: self.foid[ci] for rel, ci in self.sc["tree2"].items()}
+                d2, b2 = model.ref_dir(ents2)
+                for oid, data in [(d2, b2)] + [(self.foid[ci], self.contents[ci]) for ci in set(self.sc["tree2"].values())]:
+                    w.raw_add(sname, skind, oid, data)
+            dest = self.dest_desc()
             w.mkdirs(w.p("cache"))
         for ci in self.sc["pre_objs"]:
             w.raw_add(dest[0], dest[1], self.foid[ci], self.contents[ci])
@@ -167,6 +187,8 @@ class Env:
     def dest_desc(self):
         fam = self.cfg["family"]
         if fam == "xfer_lr" or self.cfg.get("upload_to") == "remote":
+            return ("rs", "remote")
+        if fam == "xfer_multi" and self.cfg.get("multi_dest") == "remote":
             return ("rs", "remote")
         return ("cache", "local")
 
@@ -223,6 +245,25 @@ class Env:
             return []
         ents = {rel: self.foid[ci] for rel, ci in self.sc["tree"].items()}
         doid, _ = model.ref_dir(ents)
+        if fam == "xfer_multi":
+            # closed request over two directories sharing files, as index.push sends it
+            ents2 = {rel: self.foid[ci] for rel, ci in self.sc["tree2"].items()}
+            d2, _ = model.ref_dir(ents2)
+            src = w.odb("src", "local")
+            dest = w.odb("rs", "remote") if cfg["multi_dest"] == "remote" else self.cache()
+            ids = {doid, d2} | set(ents.values()) | set(ents2.values())
+            index = None
+            if cfg.get("use_index"):
+                from dvc_data.hashfile.db.index import ObjectDBIndex
+
+                index = ObjectDBIndex(w.p("tmp"), "destidx")
+            try:
+                r = transfer(src, dest, {HashInfo("md5", o) for o in ids}, jobs=cfg["jobs"], dest_index=index,
+                             cache_odb=dest, shallow=True)
+            finally:
+                if index is not None:
+                    index.close()
+            return sorted(h.value for h in r.failed)
         if fam == "xfer_ll":
             src = w.odb("src", "local")
             dest = self.cache()
@@ -270,8 +311,9 @@ def _audit_one(env, name, kind, after_rerun, golden_objs):
                 out.append(("remote-object-mismatch", typ, f"{model.short(oid)} {why}"))
             elif after_rerun:
                 out.append(("rerun-left-invalid-object", typ, f"{model.short(oid)} {why} mode {oct(modes.get(oid, 0))}"))
-        elif after_rerun and kind == "local" and modes.get(oid) != 0o444:
-            out.append(("rerun-unprotected", typ, f"{model.short(oid)} mode {oct(modes.get(oid, 0))}"))
+        # NOTE: "protected after the re-run" is NOT required: the statement asks for
+        # every object to match its name; a valid but unprotected object is simply
+        # re-hashed (and protected) by the next integrity check.
     for d, child in model.closure_violations(objs):
         out.append(("A3-dir-without-child", "after-rerun" if after_rerun else "after-crash",
                     f"{model.short(d)} lacks {model.short(child)}"))
@@ -437,7 +479,10 @@ def execute(sc, ctx):
     ctx.stats["crash_points"] = 0
     nontrivial = 0
     evs = golden["events"]
-    dname, dkind = ("rs", "remote") if (fam == "xfer_lr" or sc["cfg"].get("upload_to") == "remote") else ("cache", "local")
+    dname, dkind = ("rs", "remote") if (
+        fam == "xfer_lr" or sc["cfg"].get("upload_to") == "remote"
+        or (fam == "xfer_multi" and sc["cfg"].get("multi_dest") == "remote")
+    ) else ("cache", "local")
     dprefix = "<rs>" if dkind == "remote" else "cache/"
     touching = [
         i for i, e in enumerate(evs)
